@@ -1061,6 +1061,9 @@ const P_LOCAL_AS: u32 = 65001;
 const P_CONFED_ID: u32 = 64512;
 const P_CLUSTER: Ipv4Addr = Ipv4Addr::new(7, 7, 7, 7);
 const P_SRC_RID: Ipv4Addr = Ipv4Addr::new(5, 5, 5, 5);
+const P_POL_NH: Ipv4Addr = Ipv4Addr::new(198, 51, 100, 9);
+const P_POL_MED: i64 = 777;
+const P_POL_COMM: u32 = (65000 << 16) | 1;
 
 fn prop_aspath(shape: &str) -> Vec<u8> {
     let seg = |t: u8, asns: &[u32]| -> Vec<u8> {
@@ -1093,6 +1096,8 @@ fn prop_describe(nexthop: Option<bgp::Nexthop>, attr: &[packet::Attribute], loca
     let mut llgr = false;
     let mut oid = "none".to_string();
     let mut cl = "none".to_string();
+    let mut med: i64 = -1;
+    let mut comm: Vec<u32> = Vec::new();
     for a in attr {
         match a.code() {
             packet::Attribute::AS_PATH => {
@@ -1118,7 +1123,10 @@ fn prop_describe(nexthop: Option<bgp::Nexthop>, attr: &[packet::Attribute], loca
                 }
             }
             packet::Attribute::LOCAL_PREF => present.push("LP"),
-            packet::Attribute::MULTI_EXIT_DESC => present.push("MED"),
+            packet::Attribute::MULTI_EXIT_DESC => {
+                present.push("MED");
+                med = a.value().map(|v| v as i64).unwrap_or(-2);
+            }
             packet::Attribute::ORIGINATOR_ID => {
                 present.push("OID");
                 let v = a.value().unwrap_or(0);
@@ -1149,6 +1157,8 @@ fn prop_describe(nexthop: Option<bgp::Nexthop>, attr: &[packet::Attribute], loca
                     if b.chunks(4).any(|c| c == [0xff, 0xff, 0x00, 0x06]) {
                         llgr = true;
                     }
+                    comm = b.chunks(4).map(|c| u32::from_be_bytes([c[0], c[1], c[2], c[3]])).collect();
+                    comm.sort();
                 }
             }
             200 => {
@@ -1161,12 +1171,13 @@ fn prop_describe(nexthop: Option<bgp::Nexthop>, attr: &[packet::Attribute], loca
     }
     let nh = match nexthop {
         Some(n) if n.addr() == local_addr => "self",
+        Some(n) if n.addr() == IpAddr::V4(P_POL_NH) => "policy",
         Some(n) if n.addr() == IpAddr::V4(orig_nh) => "orig",
         Some(_) => "other",
         None => "none",
     };
     format!(
-        "{{\"sent\":true,\"asp\":[{}],\"first\":{},\"present\":[{}],\"utPartial\":{},\"llgrStale\":{},\"oid\":\"{}\",\"cl\":\"{}\",\"nexthop\":\"{}\"}}",
+        "{{\"sent\":true,\"asp\":[{}],\"first\":{},\"present\":[{}],\"utPartial\":{},\"llgrStale\":{},\"oid\":\"{}\",\"cl\":\"{}\",\"nexthop\":\"{}\",\"med\":{},\"comm\":[{}]}}",
         asp.join(","),
         first,
         present.iter().map(|x| format!("\"{}\"", x)).collect::<Vec<_>>().join(","),
@@ -1174,7 +1185,9 @@ fn prop_describe(nexthop: Option<bgp::Nexthop>, attr: &[packet::Attribute], loca
         llgr,
         oid,
         cl,
-        nh
+        nh,
+        med,
+        comm.iter().map(|x| x.to_string()).collect::<Vec<_>>().join(",")
     )
 }
 
@@ -1199,7 +1212,24 @@ fn prop_replay() {
         }
         let (src, dst, confed, asp, has, llgr, same) =
             (tok[1], tok[2], tok[3] == "1", tok[4], tok[5], tok[6] == "1", tok[7] == "1");
+        let pol = tok.get(8).copied().unwrap_or("none");
         let res = std::panic::catch_unwind(|| {
+            // the neighbour's export policy: one statement without conditions (always applies) carrying one action
+            let policy = (pol != "none").then(|| {
+                let acts = match pol {
+                    "nexthop" => table::Actions { nexthop: Some(table::NexthopAction::Address(IpAddr::V4(P_POL_NH))), ..Default::default() },
+                    "med" => table::Actions { med: Some(table::MedAction { action_type: table::MedActionType::Replace, value: P_POL_MED }), ..Default::default() },
+                    "comm" => table::Actions {
+                        community: Some(table::CommunityAction { action_type: table::CommunityActionType::Replace, communities: vec![P_POL_COMM] }),
+                        ..Default::default()
+                    },
+                    x => panic!("harness: pol {x}"),
+                };
+                let mut pt = table::PolicyTable::new();
+                pt.add_statement("a", vec![], None, acts).unwrap();
+                pt.add_policy("p", vec!["a".into()]).unwrap();
+                pt.add_assignment("global", table::PolicyDirection::Export, table::Disposition::Accept, vec!["p".into()]).unwrap().1
+            });
             let src_addr = if same { dst_addr } else { IpAddr::V4(Ipv4Addr::new(10, 0, 0, 3)) };
             let source: Arc<table::Source> = match src {
                 "local" => table::Source::local(),
@@ -1280,7 +1310,7 @@ fn prop_replay() {
                 let mut em = crate::event::export::ExportMap::new(if emax > 1 { vec![Family::IPV4] } else { vec![] });
                 let mut sink = RecSink { reach: Vec::new(), unreach: 0 };
                 crate::event::export::process_nlri_change(
-                    &change, emax, dst_addr, &mut em, &mut sink, &ctx, None, cluster_id, None, None, None,
+                    &change, emax, dst_addr, &mut em, &mut sink, &ctx, policy.as_deref(), cluster_id, None, None, None,
                 );
                 outs.push(match sink.reach.first() {
                     None => "{\"sent\":false}".to_string(),
